@@ -377,6 +377,17 @@ fn run_readonly<A: Flavor>(case: &CaseC09, mode: u8, capsel: u8, ops: &[RoOp]) -
     (classes, viol)
 }
 
+fn c09_run_inner(case: &CaseC09) -> CaseReport {
+        let (classes, viol) = match (&case.kind, case.cfg.flavor) {
+            (Kind::Refuse { m, mode, capsel, create }, Fl::Sync) => run_refuse::<sync::Arena>(case, m, *mode, *capsel, *create),
+            (Kind::Refuse { m, mode, capsel, create }, Fl::Unsync) => run_refuse::<unsync::Arena>(case, m, *mode, *capsel, *create),
+            (Kind::ReadOnly { mode, capsel, ops }, Fl::Sync) => run_readonly::<sync::Arena>(case, *mode, *capsel, ops),
+            (Kind::ReadOnly { mode, capsel, ops }, Fl::Unsync) => run_readonly::<unsync::Arena>(case, *mode, *capsel, ops),
+        };
+        let nontrivial = (classes.contains("open-refused") && classes.contains("stale-bytes-above-cursor")) || classes.contains("ro-3-mutators");
+        CaseReport { nontrivial, classes, viol }
+}
+
 impl Prop for C09 {
     type Case = CaseC09;
     const ID: &'static str = "C09";
@@ -416,14 +427,10 @@ impl Prop for C09 {
         (case_strategy(&p), prop_oneof![1 => Just(0u8), 4 => 1u8..=120], kind).prop_map(|(c, stale, kind)| CaseC09 { cfg: c.cfg, pre: c.ops, stale, kind }).boxed()
     }
     fn run(case: &CaseC09) -> CaseReport {
-        let (classes, viol) = match (&case.kind, case.cfg.flavor) {
-            (Kind::Refuse { m, mode, capsel, create }, Fl::Sync) => run_refuse::<sync::Arena>(case, m, *mode, *capsel, *create),
-            (Kind::Refuse { m, mode, capsel, create }, Fl::Unsync) => run_refuse::<unsync::Arena>(case, m, *mode, *capsel, *create),
-            (Kind::ReadOnly { mode, capsel, ops }, Fl::Sync) => run_readonly::<sync::Arena>(case, *mode, *capsel, ops),
-            (Kind::ReadOnly { mode, capsel, ops }, Fl::Unsync) => run_readonly::<unsync::Arena>(case, *mode, *capsel, ops),
-        };
-        let nontrivial = (classes.contains("open-refused") && classes.contains("stale-bytes-above-cursor")) || classes.contains("ro-3-mutators");
-        CaseReport { nontrivial, classes, viol }
+        crate::enga::set_owner(Some("C09"));
+        let r = c09_run_inner(case);
+        crate::enga::set_owner(None);
+        r
     }
     fn cases(tier: Tier) -> u64 {
         scale(tier, 16_000, 400_000)
